@@ -46,7 +46,7 @@ func checkC03(c *c03Case, o *core.Obs) error {
 	switch c.Source {
 	case "gen":
 		bs, stat := c.Prog.Build()
-		parts = &stillParts{File: xref.Simple("VP8L", bs), Bitstream: bs, Lossless: true, W: c.Prog.W, H: c.Prog.H}
+		parts = &stillParts{File: xref.Simple("VP8L", bs), Bitstream: bs, Lossless: true, W: c.Prog.W, H: c.Prog.H, RawToWitness: true}
 		p := c.Prog
 		tr := ""
 		for _, t := range p.Transforms {
